@@ -221,6 +221,13 @@ fn main() {
             tpairs::record_pairs(&m["trace"], &m["prop"], seed, n, &mut r);
             r
         }
+        ("record", Some("qstep")) => {
+            let mut r = Report::default();
+            let seed: u64 = m.get("seed").and_then(|s| s.parse().ok()).unwrap_or(1);
+            let n: usize = m.get("n").and_then(|s| s.parse().ok()).unwrap_or(300);
+            qlong::record_qstep(&m["trace"], seed, n, &mut r);
+            r
+        }
         ("record", Some("minmax")) => {
             let mut r = Report::default();
             let seed: u64 = m.get("seed").and_then(|s| s.parse().ok()).unwrap_or(1);
